@@ -61,26 +61,53 @@ def _cfg(name):
 class PhyBench:
     """One elaborated GatewarePHY; runs scenarios (lists of items) and records one dict per usb cycle."""
 
-    def __init__(self, pullup=True, pulldown=False):
+    def __init__(self, pullup=True, pulldown=False, vbus=False, record=False, clk_offset=False):
+        """io configuration: optional `pullup` / `pulldown` / `vbus_valid` elements given or omitted; `record` = a
+        real amaranth Record (what platform.request returns) instead of a plain namespace of signals; `clk_offset` =
+        the usb edge falls half a usb_io period after a usb_io edge instead of coinciding with one (both are
+        "phase related" in the doc-string's sense)."""
         use_repo()
-        from amaranth import Signal
+        from amaranth import Signal, Module, ClockDomain, Elaboratable
         from amaranth.sim import Simulator
         from luna.gateware.interface.gateware_phy import GatewarePHY
-        io = types.SimpleNamespace()
-        for n in ("d_p", "d_n"):
-            setattr(io, n, types.SimpleNamespace(i=Signal(name=n + "_i"), o=Signal(name=n + "_o"),
-                                                 oe=Signal(name=n + "_oe")))
-        if pullup:
-            io.pullup = types.SimpleNamespace(o=Signal(name="pullup_o"))
-        if pulldown:
-            io.pulldown = types.SimpleNamespace(o=Signal(name="pulldown_o"))
+        if record:
+            import warnings
+            with warnings.catch_warnings():
+                warnings.simplefilter("ignore")
+                from amaranth.hdl.rec import Record
+                layout = [("d_p", [("i", 1), ("o", 1), ("oe", 1)]), ("d_n", [("i", 1), ("o", 1), ("oe", 1)])]
+                layout += [("pullup", [("o", 1)])] if pullup else []
+                layout += [("pulldown", [("o", 1)])] if pulldown else []
+                layout += [("vbus_valid", [("i", 1)])] if vbus else []
+                io = Record(layout)
+        else:
+            io = types.SimpleNamespace()
+            for n in ("d_p", "d_n"):
+                setattr(io, n, types.SimpleNamespace(i=Signal(name=n + "_i"), o=Signal(name=n + "_o"),
+                                                     oe=Signal(name=n + "_oe")))
+            if pullup:
+                io.pullup = types.SimpleNamespace(o=Signal(name="pullup_o"))
+            if pulldown:
+                io.pulldown = types.SimpleNamespace(o=Signal(name="pulldown_o"))
+            if vbus:
+                io.vbus_valid = types.SimpleNamespace(i=Signal(name="vbus_valid_i"))
         self.io = io
-        self.has_pu, self.has_pd = pullup, pulldown
-        self.phy = GatewarePHY(io=io)
-        self.sim = Simulator(self.phy)
-        # usb = usb_io / 4, rising edges coincide (the doc-string demands phase-related clocks)
+        self.has_pu, self.has_pd, self.has_vbus = pullup, pulldown, vbus
+        self.phy = phy = GatewarePHY(io=io)
+        # the two domains are created here (as a platform would) so that their resets can be driven
+        self.cd_usb, self.cd_io = ClockDomain("usb"), ClockDomain("usb_io")
+
+        class Top(Elaboratable):
+            def elaborate(top, platform):
+                m = Module()
+                m.domains.usb = self.cd_usb
+                m.domains.usb_io = self.cd_io
+                m.submodules.phy = phy
+                return m
+        self.sim = Simulator(Top())
+        # usb = usb_io / 4, phase related (the doc-string demands it)
         self.sim.add_clock(0.25e-6, phase=0.125e-6, domain="usb_io")
-        self.sim.add_clock(1e-6, phase=0.125e-6, domain="usb")
+        self.sim.add_clock(1e-6, phase=0.5e-6 if clk_offset else 0.125e-6, domain="usb")
         self._job = None
         self._out = None
         self._first = True
@@ -104,17 +131,23 @@ class PhyBench:
         else:
             self._out = await self._run_ctl(ctx, job)
 
-    async def _cycle(self, ctx, st, v, d):
-        """One usb cycle of a packet scenario: apply UTMI inputs, play four waveform samples, record."""
+    async def _cycle(self, ctx, st, v, d, rst=None):
+        """One usb cycle of a packet scenario: apply UTMI inputs, play four waveform samples, record.
+        rst = (txk, rxk): both clock-domain resets are asserted in this cycle; the record tells the trace
+        specification which packets have been given up (bookkeeping indices after the reset)."""
         phy, io = self.phy, self.io
         ctx.set(phy.tx_valid, int(v))
         ctx.set(phy.tx_data, d)
+        ctx.set(self.cd_usb.rst, int(rst is not None))
+        ctx.set(self.cd_io.rst, int(rst is not None))
         rec = {"v": bool(v), "d": d, "rdy": bool(ctx.get(phy.tx_ready)),
                "a": bool(ctx.get(phy.rx_active)), "rv": bool(ctx.get(phy.rx_valid)), "rd": ctx.get(phy.rx_data)}
         w, e = [], []
         wave = st["wave"]
+        rec["lb"] = False
         for _ in range(4):
             code = wave.next_sample()
+            rec["lb"] = rec["lb"] or code != J
             if code != st["lvl"]:
                 p, n = LEVELS[code]
                 ctx.set(io.d_p.i, p)
@@ -124,6 +157,8 @@ class PhyBench:
             e.append(ctx.get(phy.rx_error))
             await ctx.tick("usb_io")
         rec["w"], rec["e"] = w, e
+        rec["rst"] = rst is not None
+        rec["txk"], rec["rxk"] = rst if rst is not None else (0, 0)
         st["steps"].append(rec)
         return rec
 
@@ -131,8 +166,14 @@ class PhyBench:
         phy, io = self.phy, self.io
         wave = Waveform()
         st = {"wave": wave, "lvl": None, "steps": []}
+        ctl = sc.get("ctl", {})
         ctx.set(phy.op_mode, 0)
-        ctx.set(phy.term_select, 1)
+        ctx.set(phy.term_select, ctl.get("ts", 1))
+        ctx.set(phy.xcvr_select, ctl.get("xs", 1))
+        ctx.set(phy.dp_pulldown, ctl.get("dp", 0))
+        ctx.set(phy.dm_pulldown, ctl.get("dm", 0))
+        if self.has_vbus:
+            ctx.set(io.vbus_valid.i, ctl.get("vbus", 1))
         ctx.set(io.d_p.i, 1)
         ctx.set(io.d_n.i, 0)
         st["lvl"] = J
@@ -150,6 +191,13 @@ class PhyBench:
                 start = len(st["steps"])
                 i, driven, released, guard = 0, False, False, 0
                 while not released:
+                    if it.get("reset_at") is not None and guard == it["reset_at"]:
+                        # clock-domain reset in the middle of the transmission: the packet is given up
+                        for _ in range(it.get("reset_len", 2)):
+                            await self._cycle(ctx, st, 0, idle_d, rst=(len(txp) + 2, len(rxp)))
+                        for _ in range(it.get("reset_idle", 3)):
+                            await self._cycle(ctx, st, 0, idle_d)
+                        break
                     v = i < len(data)
                     rec = await self._cycle(ctx, st, v, data[i] if v else idle_d)
                     if v and rec["rdy"]:
@@ -172,11 +220,23 @@ class PhyBench:
                     codes += [J] * p["gap"] + [SYM_CODE[s] for s in p["syms"]]
                 wave.queue(codes, phase=it.get("phase", 0), rate=it.get("rate", 0), sub=it.get("sub", 0))
                 start = len(st["steps"])
+                n = 0
                 while wave.busy():
-                    await self._cycle(ctx, st, 0, idle_d)
+                    if it.get("reset_at") is not None and n >= it["reset_at"]:
+                        # reset held from here until the burst has left the line (plus two idle bit times), so that
+                        # the receiver does not wake up in the middle of a packet
+                        await self._cycle(ctx, st, 0, idle_d, rst=(len(txp) + 1, len(rxp) + len(it["pkts"])))
+                    else:
+                        await self._cycle(ctx, st, 0, idle_d)
+                    n += 1
+                if it.get("reset_at") is not None:
+                    for _ in range(2):
+                        await self._cycle(ctx, st, 0, idle_d, rst=(len(txp) + 1, len(rxp) + len(it["pkts"])))
+                    for _ in range(3):
+                        await self._cycle(ctx, st, 0, idle_d)
                 # let the receive pipeline drain: until rx_active has been seen and is low again (bounded)
                 guard = 0
-                seen = any(r["a"] for r in st["steps"][start:])
+                seen = any(r["a"] for r in st["steps"][start:]) or it.get("reset_at") is not None
                 while guard < 30 and not (seen and guard >= it.get("drain", 2) and not st["steps"][-1]["a"]):
                     rec = await self._cycle(ctx, st, 0, idle_d)
                     seen = seen or rec["a"]
@@ -206,6 +266,8 @@ class PhyBench:
             ctx.set(phy.dp_pulldown, int(s["dp"]))
             ctx.set(phy.dm_pulldown, int(s["dm"]))
             ctx.set(phy.xcvr_select, s.get("xs", 1))
+            if self.has_vbus:
+                ctx.set(io.vbus_valid.i, int(s.get("vbus", True)))
             rec = dict(s)
             oe = False
             puo = pdo = 0
@@ -215,9 +277,9 @@ class PhyBench:
                     puo = ctx.get(io.pullup.o) if self.has_pu else 0
                     pdo = ctx.get(io.pulldown.o) if self.has_pd else 0
                 await ctx.tick("usb_io")
-            rec.update({"oe": oe, "puo": puo, "pdo": pdo})
+            rec.update({"oe": oe, "puo": puo, "pdo": pdo, "vbo": ctx.get(phy.vbus_valid), "seo": ctx.get(phy.session_end)})
             steps.append(rec)
-        cfg = {"kind": "ctl", "pu": self.has_pu, "pd": self.has_pd}
+        cfg = {"kind": "ctl", "pu": self.has_pu, "pd": self.has_pd, "vbus": self.has_vbus}
         return {"cfg": cfg, "steps": steps}, [{"dir": "ctl", "origin": sc.get("origin")}]
 
     def run(self, kind, job):
@@ -304,7 +366,7 @@ _BENCHES = {}
 def _run_job(job):
     kind, key, sc = job
     if key not in _BENCHES:
-        _BENCHES[key] = PhyBench(pullup=key[0], pulldown=key[1])
+        _BENCHES[key] = PhyBench(*key)
     return _BENCHES[key].run(kind, sc)
 
 
@@ -327,16 +389,19 @@ def run_jobs(jobs, procs):
         return _run_chunk(jobs)
     import multiprocessing as mp
     n = min(procs, len(jobs))
-    chunks = [jobs[i::n] for i in range(n)]
+    # contiguous chunks of the jobs ordered by io/clock configuration: a process elaborates only a few of them
+    order = sorted(range(len(jobs)), key=lambda i: (jobs[i][1], i))
+    size = -(-len(order) // n)
+    idx = [order[c * size:(c + 1) * size] for c in range(n)]
     try:
         with mp.get_context("fork").Pool(n) as pool:
-            parts = pool.map(_run_chunk, chunks)
+            parts = pool.map(_run_chunk, [[jobs[i] for i in ix] for ix in idx])
     except (OSError, ValueError):
         return _run_chunk(jobs)
     out = [None] * len(jobs)
-    for c, part in enumerate(parts):
-        for k, r in enumerate(part):
-            out[c + k * n] = r
+    for ix, part in zip(idx, parts):
+        for i, r in zip(ix, part):
+            out[i] = r
     return out
 
 
@@ -440,6 +505,11 @@ def _clause(status):
 
 def classify(trace, matched, status, meta):
     clause, pos = _clause(status)
+    if clause.startswith("env_"):
+        # the harness left the stated Env (host model / waveform synthesizer / vector bookkeeping): a machinery
+        # failure, never a property violation
+        raise tlc.TLCError("stimulus outside the environment assumptions: clause %s at step %d of trace %s"
+                           % (clause, matched, meta.get("origin")))
     steps = trace["steps"]
     k = matched                                   # 1-based index of the failing record
     pattern = "other"
@@ -497,7 +567,9 @@ class Builder:
     def add(self, kind, sc, origin, cls="clean", key=(True, False)):
         sc["origin"] = origin
         self.jobs.append((kind, key, sc))
-        self.meta.append({"origin": origin, "class": cls, "io": {"pullup": key[0], "pulldown": key[1]}})
+        k = tuple(key) + (False,) * (5 - len(key))
+        self.meta.append({"origin": origin, "class": cls,
+                          "io": dict(zip(("pullup", "pulldown", "vbus_valid", "record", "clk_offset"), k))})
 
     # -- transmit ----------------------------------------------------------------------------------------------
     def tx_item(self, data, prev_idle, idle=None, gap=None):
@@ -558,7 +630,7 @@ class Builder:
 def ctl_stimulus(rng, n, allow_nondriving_request, pull_requests):
     """Random control schedule; moods last a few cycles.  allow_nondriving_request = may assert tx_valid in op_mode 1."""
     stim = []
-    s = {"op": 0, "v": False, "d": 0, "ts": False, "dp": False, "dm": False, "xs": 1}
+    s = {"op": 0, "v": False, "d": 0, "ts": False, "dp": False, "dm": False, "xs": 1, "vbus": True}
     left = 0
     for _ in range(n):
         if left == 0:
@@ -575,6 +647,7 @@ def ctl_stimulus(rng, n, allow_nondriving_request, pull_requests):
                     s["dp"] = rng.random() < 0.4
                     s["dm"] = rng.random() < 0.4
                 s["xs"] = rng.randrange(4)
+                s["vbus"] = rng.random() < 0.7
             if s["op"] == 1 and s["v"] and not allow_nondriving_request:
                 s["v"] = False
         left -= 1
@@ -609,6 +682,10 @@ def check_C25(rep):
                "without skew, line rate within +-0.25 % of the 48 MHz sampler / 4, any sampling phase")
     rep.assume("op_mode 2 (no bit-stuffing/NRZI) and 3 (reserved), xcvr_select and line_state are not constrained "
                "by the property; control outputs are compared once a request has been stable for 2 usb cycles")
+    rep.assume("clock-domain resets: ResetSignal of usb and usb_io are asserted together for at least two usb cycles "
+               "(a single-cycle reset leaves the reset-less 3-stage synchronizers of TxPipeline holding 'drive', and "
+               "the PHY then puts a runt K + EOP on the bus after the reset -- observed, outside the stated Env); the "
+               "receiver is released from reset only while the line is idle")
     rep.assume("clean stimuli avoid the Env predicates of the open findings (KF_tx_stall: six consecutive ones in "
                "idle tx_data / first byte before the data phase; KF_tx_sync_one: first byte xxx11111; stuff-violation "
                "packets and op_mode 1 with tx_valid / io with pulldown element are witness stimuli)")
@@ -629,6 +706,21 @@ def check_C25(rep):
     xvecs = encode_with_tlc([{"bytes": b, "nbad": 2} for b in extra])
 
     B = Builder(rng)
+    # io / clock configurations (pullup, pulldown, vbus_valid, amaranth Record, usb edge offset): packet traces rotate
+    # over them (start of the rotation depends on the seed), the control traces elaborate each optional-pin class
+    PKT_KEYS = [(True, False, False, False, False), (True, True, True, True, False), (False, False, False, False, True),
+                (True, False, True, False, True), (False, True, False, True, False)]
+    rot = [rng.randrange(len(PKT_KEYS))]
+    add0 = B.add
+
+    def add_rot(kind, sc, origin, cls="clean", key=None):
+        if kind == "pkt" and key is None:
+            rot[0] += 1
+            key = PKT_KEYS[rot[0] % len(PKT_KEYS)]
+            sc.setdefault("ctl", {"ts": rng.randrange(2), "xs": rng.randrange(1, 4), "dp": rng.randrange(2),
+                                  "dm": rng.randrange(2), "vbus": rng.randrange(2)})
+        add0(kind, sc, origin, cls, key if key is not None else (True, False))
+    B.add = add_rot
 
     # 3a. transmit: every vector (behind a PID where an open finding's Env predicate could hold), random packets
     tx_clean = [B.clean_tx_bytes(v["bytes"], i) for i, v in enumerate(vecs)] + [v["bytes"] for v in xvecs]
@@ -717,6 +809,21 @@ def check_C25(rep):
         B.add("pkt", {"idle0": 3, "items": [B.tx_item([0xD2, 0xFF], 0, idle=0, gap=1), burst], "tail": 5},
               "mixed:sweep tx->rx gap %d" % g)
 
+    # 3c''. clock-domain reset (ResetSignal of usb and usb_io) in the middle of a transmission / reception, at every
+    #       offset; afterwards the PHY must be idle and handle the next packets in both directions
+    for d in range(0, 34, 1 if not quick else 2):
+        it = B.tx_item([0xC3, 0xFF, 0x80], 0, idle=0, gap=2)
+        it.update({"reset_at": d, "reset_len": 2 + d % 3, "reset_idle": 1 + d % 4})
+        B.add("pkt", {"idle0": 3 + d % 5, "idle0_data": 0, "tail": 5,
+                      "items": [it, B.tx_item([0x4B, 0xFF, 0x3F], 0, idle=0, gap=1), B.rx_burst([(va, None)], d % 4),
+                                B.tx_item([0xD2], 0, idle=0, gap=2)]}, "reset:during tx, offset %d" % d)
+    for d in range(0, 40, 1 if not quick else 2):
+        burst = B.rx_burst([(va, None)], d % 4)
+        burst["reset_at"] = d
+        B.add("pkt", {"idle0": 3, "tail": 5,
+                      "items": [burst, B.rx_burst([(vb, None), (va, None)], (d + 1) % 4),
+                                B.tx_item([0xC3, 0x00, 0xFF], 0, idle=0, gap=1)]}, "reset:during rx, offset %d" % d)
+
     # 3d. witness stimuli of the transmit findings
     for off in range(56):          # the stall depends on the phase of the free-running shifter (8) and stuffer (7)
         it = B.tx_item([0xC3, 0x12], 0xFF, idle=0xFF, gap=0)
@@ -729,7 +836,24 @@ def check_C25(rep):
 
     # 3e. static clauses
     for n, key in enumerate([(True, False)] * (4 if quick else 20) + [(False, False)] * (2 if quick else 6)):
-        B.add("ctl", {"stim": ctl_stimulus(rng, 250 if quick else 1000, False, True)}, "ctl:random", key=key)
+        B.add("ctl", {"stim": ctl_stimulus(rng, 250 if quick else 1000, True, True)}, "ctl:random", key=key)
+    # op_mode leaves normal mode while the transmit pipeline is busy (during SYNC / payload / drain / EOP), at every
+    # offset, for every target mode; then back to normal and a second packet request
+    CTL_KEYS = [(True, False), (False, False), (True, True), (False, True), (True, True, True), (True, False, True, True),
+                (False, False, False, False, True)]
+    for d in range(0, 40, 1 if not quick else 2):
+        for mode in ((1,) if quick and d % 4 else (1, 2, 3)):
+            base = {"op": 0, "v": False, "d": 0, "ts": bool(d & 1), "dp": False, "dm": bool(d & 2), "xs": 1 + d % 3,
+                    "vbus": True}
+            nv = 10 + d % 12                      # cycles tx_valid is held (tx_data constant: a stream of C3 bytes)
+            stim = [dict(base) for _ in range(3)]
+            stim += [dict(base, v=(i < nv), d=0xC3, op=(mode if i >= d else 0)) for i in range(d + 14)]
+            stim += [dict(base, op=mode) for _ in range(6)] + [dict(base) for _ in range(3)]
+            stim += [dict(base, v=(i < 9), d=0x80) for i in range(30)]
+            B.add("ctl", {"stim": stim}, "ctl:sweep op_mode 0->%d at offset %d while transmitting" % (mode, d),
+                  key=CTL_KEYS[(d + mode) % len(CTL_KEYS)])
+    for key in CTL_KEYS[4:]:
+        B.add("ctl", {"stim": ctl_stimulus(rng, 200, True, True)}, "ctl:random", key=key)
     B.add("ctl", {"stim": ctl_stimulus(rng, 250, True, True)}, "ctl:witness op_mode=1 with tx_valid",
           cls="witness:C25-opmode-constants-swapped")
     for _ in range(2):
@@ -757,8 +881,13 @@ def check_C25(rep):
         steps = trace["steps"]
         rep.add_eval(len(steps))
         if trace["cfg"]["kind"] == "ctl":
+            want_vbus = (lambda r: int(r.get("vbus", True))) if trace["cfg"].get("vbus") else (lambda r: 1)
             for r in steps:
-                rep.nontriv(("ctl", r["op"], r["v"], r["ts"], r["dp"] or r["dm"], trace["cfg"]["pu"], trace["cfg"]["pd"]))
+                rep.nontriv(("ctl", r["op"], r["v"], r["ts"], r["dp"] or r["dm"], trace["cfg"]["pu"], trace["cfg"]["pd"],
+                             trace["cfg"].get("vbus", False)))
+                if (r["vbo"], r["seo"]) != (want_vbus(r), 1 - want_vbus(r)) and len(rep.drift) < 10:
+                    rep.drift.append({"what": "vbus_valid / session_end do not follow io.vbus_valid (doc-string; not "
+                                              "part of C25's statement)", "record": r, "io": meta["io"]})
             continue
         for n in notes:
             if n["dir"] == "tx":
